@@ -6,7 +6,7 @@ PROP = 'C02'
 RULE = ("the C01 message streams (every single bit, every pair, boundary lengths, random subsets, generated configurations; "
         "6 codecs x 2 bitmap forms) compared byte-for-byte with an independent reference encoder and key-for-key with an "
         "independent strict reference decoder, plus over-length variable values (100 / 1000 characters and beyond) on every "
-        "variable element, which must be refused. Non-trivial = at least one data element; distinct = distinct case")
+        "variable element, which must be refused; numeric elements given as text (padded, signed, underscored spellings int() accepts). Non-trivial = at least one data element; distinct = distinct case")
 TRUSTED = c01.TRUSTED + ["harness/isoutil.py ref_encode/ref_decode: reference codec written from the documentation"]
 ASSUMPTIONS = c01.ASSUMPTIONS
 
@@ -94,6 +94,19 @@ def explore(run, tier):
                 for n in {1, fc['field_length'] // 2, fc['field_length'] - 1}:
                     m = {'MTI': '1240', f'DE{b}': iu.text(rng, codec, n).rstrip(' ') or 'x'}
                     cases.append(c01.mk('pkg', codec, b % 2, m, {}))
+    # numeric elements given as TEXT (what the CSV tools hand over): rendered from the value int() reads, zero padded
+    for b in bits:
+        fc = pkg[str(b)]
+        if fc.get('field_python_type') in ('int', 'long') and fc['field_type'] not in ('LLVAR', 'LLLVAR'):
+            w = fc['field_length']
+            for codec in codecs3:
+                for txt in ['0', '7', '1999'[:w], ' 1999'[:w + 1], '+19'[:w + 1], '007'[:w], '1_0'[:w], '9' * w,
+                            '0' * (w + 4) + '5', ' 42 ', '\t7\n']:
+                    try:
+                        if 0 <= int(txt) < 10 ** w:
+                            cases.append(c01.mk('pkg', codec, b % 2, {'MTI': '1240', f'DE{b}': txt}, {}))
+                    except ValueError:
+                        pass
     for _ in range(2000 if tier == 'quick' else 50000):
         codec = rng.choice(iu.CODECS)
         m, e = iu.gen_message(rng, pkg, codec)
